@@ -678,7 +678,8 @@ class _Canon(ast.NodeTransformer):
 
     def visit_Attribute(self, node):
         self.generic_visit(node)
-        if isinstance(node.value, ast.Name) and node.value.id == "self" and node.attr.startswith("_") and not node.attr.startswith("__"):
+        if node.attr.startswith("_") and not node.attr.startswith("__"):
+            # private backing field == public property of the same name (on any object, not only self)
             return ast.copy_location(ast.Attribute(value=node.value, attr=node.attr.lstrip("_"), ctx=node.ctx), node)
         if isinstance(node.value, ast.Name) and node.value.id == "numpy":
             return ast.copy_location(ast.Attribute(value=ast.Name(id="np", ctx=ast.Load()), attr=node.attr, ctx=node.ctx), node)
@@ -686,6 +687,14 @@ class _Canon(ast.NodeTransformer):
 
     def visit_Call(self, node):
         self.generic_visit(node)
+        return node
+
+    def visit_Compare(self, node):
+        self.generic_visit(node)
+        # one direction only: a > b  ->  b < a ;  a >= b  ->  b <= a   (single comparisons)
+        if len(node.ops) == 1 and isinstance(node.ops[0], (ast.Gt, ast.GtE)):
+            op = ast.Lt() if isinstance(node.ops[0], ast.Gt) else ast.LtE()
+            return ast.copy_location(ast.Compare(left=node.comparators[0], ops=[op], comparators=[node.left]), node)
         return node
 
 
